@@ -54,6 +54,15 @@ def _instr():
     ).map(list)
 
 
+# scale classes: containers with thousands of members (around 2048 / 4096), and thousands of containers between two
+# references to one shared object
+BIG = [2049, 4097, 4100, 8193]
+
+
+def _big_instr():
+    return st.tuples(st.sampled_from(['biglist', 'bigdict', 'bigset', 'manylists', 'manylists']), st.integers(0, len(BIG) - 1), _ref).map(list)
+
+
 _ACTIONS = ['keep', 'keep', 'keep', 'drop', 'same', 'rekey', 'revalue', 'wrap']
 
 
@@ -61,7 +70,12 @@ def strat(tier):
     n = 14 if tier == 'quick' else 25
     return st.fixed_dictionaries({
         'sub': st.just('remap'),
-        'prog': st.lists(_instr(), min_size=1, max_size=n),
+        'prog': st.one_of(st.lists(_instr(), min_size=1, max_size=n), st.lists(_instr(), min_size=1, max_size=n),
+                          st.lists(_instr(), min_size=1, max_size=n), st.lists(_instr(), min_size=1, max_size=n),
+                          st.lists(_instr(), min_size=1, max_size=n), st.lists(_instr(), min_size=1, max_size=n),
+                          st.lists(_instr(), min_size=1, max_size=n), st.lists(_instr(), min_size=1, max_size=n),
+                          st.tuples(st.lists(_instr(), min_size=1, max_size=6), _big_instr(), st.lists(_instr(), max_size=3)).map(
+                              lambda t: t[0] + [t[1]] + t[2])),
         'patches': st.lists(st.tuples(st.sampled_from(['append', 'setitem']), _ref, _ref, _ref).map(list), max_size=2),
         'root': _ref,
         'visit': st.one_of(st.none(), st.none(),
@@ -107,6 +121,16 @@ def build(case):
             x = set(h(r) for r in ins[1])
         elif kind == 'frozenset':
             x = frozenset(h(r) for r in ins[1])
+        elif kind == 'biglist':
+            x = [o(ins[2])] + list(range(BIG[ins[1] % len(BIG)] - 2)) + [o(ins[2])]
+        elif kind == 'bigdict':
+            x = {i: i for i in range(BIG[ins[1] % len(BIG)] - 1)}
+            x['last'] = o(ins[2])
+        elif kind == 'bigset':
+            x = set(range(BIG[ins[1] % len(BIG)] - 1))
+            x.add(h(ins[2]))
+        elif kind == 'manylists':
+            x = [o(ins[2])] + [[i] for i in range(BIG[ins[1] % len(BIG)])] + [o(ins[2])]
         else:
             raise HarnessError('instruction %r' % (ins,))
         objs.append(x)
@@ -448,6 +472,9 @@ def run(case):
         out.label('visit_rewrites')
     if depth >= 3:
         out.label('depth>=3')
+    for ins in case['prog']:
+        if ins[0] in ('biglist', 'bigdict', 'bigset', 'manylists'):
+            out.label('big:%s:%d' % (ins[0], BIG[ins[1] % len(BIG)]))
     return out
 
 
